@@ -2816,3 +2816,14 @@ fn is_address_value_type(value_type: &ValueType) -> bool
 		_ => false,
 	}
 }
+
+/// Verification hook (only with `--cfg penne_verif`): exposes the primary
+/// location that `build_report` hands to the renderer.
+#[cfg(penne_verif)]
+impl Error
+{
+	pub fn verif_location(&self) -> &Location
+	{
+		self.location()
+	}
+}
